@@ -28,16 +28,18 @@ type Step struct {
 
 // Plan is what the child process is asked to run.
 type Plan struct {
-	Mode    string `json:"mode"` // stress | replay
-	Api     bool   `json:"api"`
-	Clients int    `json:"clients"`
-	Rounds  int    `json:"rounds"`
-	Topics  int    `json:"topics"`
-	Events  int    `json:"events"`
-	Polls   int    `json:"polls"`
-	Seed    int64  `json:"seed"`
-	Steps   []Step `json:"steps"`
-	Out     string `json:"out"`
+	Mode string `json:"mode"` // stress | replay | expiry
+	// DeadlineMs > 0: the filters' inactivity deadline (hook H4), so that timeoutLoop and the deadline timers fire
+	DeadlineMs int    `json:"deadlineMs"`
+	Api        bool   `json:"api"`
+	Clients    int    `json:"clients"`
+	Rounds     int    `json:"rounds"`
+	Topics     int    `json:"topics"`
+	Events     int    `json:"events"`
+	Polls      int    `json:"polls"`
+	Seed       int64  `json:"seed"`
+	Steps      []Step `json:"steps"`
+	Out        string `json:"out"`
 }
 
 // Result is what the child reports (next to trace.ndjson).
@@ -65,7 +67,7 @@ type cl struct {
 	mu   sync.Mutex
 }
 
-func (c *cl) set(s string) { c.mu.Lock(); c.at = s; c.mu.Unlock() }
+func (c *cl) set(s string)  { c.mu.Lock(); c.at = s; c.mu.Unlock() }
 func (c *cl) where() string { c.mu.Lock(); defer c.mu.Unlock(); return c.at }
 
 // next returns the next command: from the schedule (replay) or chosen at random among opts.
@@ -84,6 +86,9 @@ func (c *cl) next(point string, opts ...string) string {
 	}
 	if d := c.rng.Intn(4); d > 0 {
 		time.Sleep(time.Duration(c.rng.Intn(300)) * time.Microsecond)
+	}
+	if c.plan.DeadlineMs > 0 && c.plan.Api && c.rng.Intn(3) == 0 { // now and then be idle for about a deadline: filters expire
+		time.Sleep(time.Duration(c.rng.Intn(2*c.plan.DeadlineMs*1000)) * time.Microsecond)
 	}
 	return opts[c.rng.Intn(len(opts))]
 }
@@ -255,6 +260,13 @@ func Run(plan *Plan) error {
 		}
 	}
 	verifhook.AtFunc = rec.At
+	if plan.DeadlineMs > 0 {
+		filters.VerifSetDeadline(time.Duration(plan.DeadlineMs) * time.Millisecond)
+	}
+	var ex *expiry
+	if plan.Mode == "expiry" {
+		ex = newExpiry(plan, rec)
+	}
 	rig, err := NewRig(rec, plan.Api)
 	if err != nil {
 		return err
@@ -268,19 +280,28 @@ func Run(plan *Plan) error {
 			c.cmds = make(chan string, 64)
 		}
 		cls[i] = c
-		go c.run()
+		if ex != nil {
+			go ex.client(c)
+		} else {
+			go c.run()
+		}
 	}
 	res := &Result{Spin: map[string]int{}}
-	if plan.Mode == "replay" {
+	switch plan.Mode {
+	case "replay":
 		replay(plan, rig, rec, cls, res)
-	} else {
+	case "expiry":
+		ex.wait(cls)
+	default:
 		stress(plan, rig, rec, cls, rng)
 	}
 	// quiescence: every client must have returned
+	quiesce := time.After(5 * time.Second)
 	for i := 1; i <= plan.Clients; i++ {
 		select {
 		case <-cls[i].done:
-		case <-time.After(5 * time.Second):
+		case <-quiesce:
+			quiesce = time.After(0)
 			res.Stuck = append(res.Stuck, fmt.Sprintf("client %d %s", i, cls[i].where()))
 		}
 	}
